@@ -1101,6 +1101,15 @@ class Path:
 
             self.cut_loop(s, spec, test, pre_body, (itname,), stepf)
             return
+        if self.skeleton and isinstance(it, Unknown):
+            # skeleton profile: an uninterpreted iterable yields an arbitrary number of uninterpreted items
+            self.abstraction_used = True
+
+            def pre_body_u():
+                self.assign(s.target, Unknown('item'))
+
+            self.cut_loop(s, spec, lambda: Unknown('more items'), pre_body_u, ())
+            return
         raise Unsupported(f'for over {it!r}')
 
     st_AsyncFor = st_For
